@@ -62,7 +62,7 @@ class Check:
         Print Assumptions, hygiene grep.  Returns True when all obligations discharged."""
         ok = True
         sh(["bash", os.path.join(VERIF, "tools/gencoqproject.sh")])
-        rc, out_make = sh("make -j16 2>&1 | tail -20", cwd=COQ, timeout=3000)
+        rc, out_make = sh("flock .make.lock make -k -j16 2>&1 | tail -30", cwd=COQ, timeout=3000)
         props_dir = os.path.join(COQ, "theories/props")
         srcs = sorted(os.path.join(props_dir, f) for f in os.listdir(props_dir)
                       if re.fullmatch(re.escape(self.pid) + r"(_[A-Za-z0-9]+)?\.v", f))
